@@ -46,6 +46,7 @@ type ShardResult struct {
 	Funcs           []string
 	Bounds          []string
 	Samples         []string
+	SampleVectors   []Witness
 	MaxStepsOnePath int
 	boundSeen       map[string]bool
 }
@@ -88,6 +89,8 @@ func (x *Exec) explore(entry *ssa.Function, initial []workItem) {
 		x.rangeSite, x.rangeCount = -1, 0
 		x.frames = x.frames[:0]
 		x.owned = true
+		x.pathFlagged = false
+		x.pathCompleted = false
 		x.failWhere = ""
 		x.nvars = 0
 		func() {
@@ -123,6 +126,7 @@ func (x *Exec) explore(entry *ssa.Function, initial []workItem) {
 				}
 			}()
 			x.call(entry, nil, nil)
+			x.pathCompleted = true
 		}()
 		if timedOut {
 			break
@@ -138,9 +142,11 @@ func (x *Exec) explore(entry *ssa.Function, initial []workItem) {
 			if x.steps > x.res.MaxStepsOnePath {
 				x.res.MaxStepsOnePath = x.steps
 			}
-			if len(x.res.Samples) < 3 && len(x.inputs) > 0 && x.res.Paths%7 == 1 {
+			if len(x.res.Samples) < 3 && x.res.Paths%7 == 1 && !x.pathFlagged && x.pathCompleted {
 				if sat, m, _ := x.solver.ask(x.pc, Bool(true), x.inputs); sat {
 					x.res.Samples = append(x.res.Samples, fmt.Sprintf("path %v: %s", x.decision, x.describe(m)))
+					// a completed, violation-free path: its model is replayed natively and must pass there too
+					x.res.SampleVectors = append(x.res.SampleVectors, Witness{Msg: "sample", Trace: x.traceVector(m), Inputs: x.describe(m)})
 				}
 			}
 		} else {
